@@ -84,6 +84,8 @@ impl Adapter<'static, String, Vec<String>> for Probe {
 pub struct Kit {
     pub ldap: Option<Ldap>,
     pub stream: Option<Stream>,
+    /// a second search started through `stream`'s own handle
+    pub inner: Option<Stream>,
 }
 
 struct WakeFlag(AtomicBool);
@@ -209,12 +211,37 @@ fn hs(v: &[&str]) -> HashSet<String> {
     v.iter().map(|s| s.to_string()).collect()
 }
 
+/// scripted timeouts are milliseconds; u64::MAX stands for Duration::MAX
+fn dur(ms: u64) -> Duration {
+    if ms == u64::MAX {
+        Duration::MAX
+    } else {
+        Duration::from_millis(ms)
+    }
+}
+
+async fn single_op(ldap: &mut Ldap, kind: &OpKind, marker: &str) -> Ret {
+    let r = match kind {
+        OpKind::Bind => ldap.simple_bind(marker, "pw").await.map(|r| Ret::Res(rres(&r))),
+        OpKind::Compare => ldap.compare(marker, "a", "v").await.map(|r| Ret::Res(rres(&r.0))),
+        OpKind::Delete => ldap.delete(marker).await.map(|r| Ret::Res(rres(&r))),
+        OpKind::Extended => ldap
+            .extended(Exop { name: Some(marker.to_string()), val: None })
+            .await
+            .map(|r| Ret::Exop(rres(&r.1), r.0.name.clone(), r.0.val.clone())),
+        OpKind::Add => ldap.add(marker, vec![("cn".to_string(), hs(&["x"]))]).await.map(|r| Ret::Res(rres(&r))),
+        OpKind::Modify => ldap.modify(marker, vec![Mod::Replace("cn".to_string(), hs(&["y"]))]).await.map(|r| Ret::Res(rres(&r))),
+        OpKind::ModDn => ldap.modifydn(marker, "cn=n", true, None).await.map(|r| Ret::Res(rres(&r))),
+    };
+    r.unwrap_or_else(|e| err_ret(&e))
+}
+
 async fn run_call(mut kit: Kit, call: Call, ab_id: Option<i32>) -> (Kit, Ret) {
     let ret = match call {
         Call::Single { kind, marker, timeout, ctrl } => {
             let ldap = kit.ldap.as_mut().expect("handle");
             if let Some(t) = timeout {
-                ldap.with_timeout(Duration::from_millis(t));
+                ldap.with_timeout(dur(t));
             }
             if ctrl {
                 ldap.with_controls(caller_ctl(&marker));
@@ -239,7 +266,7 @@ async fn run_call(mut kit: Kit, call: Call, ab_id: Option<i32>) -> (Kit, Ret) {
         Call::Search { marker, timeout } => {
             let ldap = kit.ldap.as_mut().expect("handle");
             if let Some(t) = timeout {
-                ldap.with_timeout(Duration::from_millis(t));
+                ldap.with_timeout(dur(t));
             }
             match ldap.search(&marker, Scope::Subtree, "(objectClass=*)", vec!["cn".to_string()]).await {
                 Ok(sr) => Ret::SearchRes(sr.0.iter().map(ritem).collect(), rres(&sr.1)),
@@ -250,7 +277,7 @@ async fn run_call(mut kit: Kit, call: Call, ab_id: Option<i32>) -> (Kit, Ret) {
             kit.stream = None;
             let ldap = kit.ldap.as_mut().expect("handle");
             if let Some(t) = timeout {
-                ldap.with_timeout(Duration::from_millis(t));
+                ldap.with_timeout(dur(t));
             }
             let mut ctrls = vec![];
             if ctrl {
@@ -343,9 +370,38 @@ async fn run_call(mut kit: Kit, call: Call, ab_id: Option<i32>) -> (Kit, Ret) {
         }
         Call::DropHandle => {
             kit.stream = None;
+            kit.inner = None;
             kit.ldap = None;
             Ret::Unit
         }
+        Call::SingleViaStream { kind, marker } => match kit.stream.as_mut() {
+            None => Ret::Err("NoStream".into(), "no stream (start failed)".into()),
+            Some(s) => single_op(s.ldap_handle(), &kind, &marker).await,
+        },
+        Call::StartInner { marker } => {
+            kit.inner = None;
+            match kit.stream.as_mut() {
+                None => Ret::Err("NoStream".into(), "no stream (start failed)".into()),
+                Some(s) => match s.ldap_handle().streaming_search(&marker, Scope::OneLevel, "(cn=x)", vec!["cn".to_string(), "sn".to_string()]).await {
+                    Ok(inner) => {
+                        kit.inner = Some(inner);
+                        Ret::Started
+                    }
+                    Err(e) => err_ret(&e),
+                },
+            }
+        }
+        Call::NextInner => match kit.inner.as_mut() {
+            None => Ret::Err("NoStream".into(), "no inner stream".into()),
+            Some(s) => match s.next().await {
+                Ok(o) => Ret::Item(o.as_ref().map(ritem)),
+                Err(e) => err_ret(&e),
+            },
+        },
+        Call::FinishInner => match kit.inner.as_mut() {
+            None => Ret::Err("NoStream".into(), "no inner stream".into()),
+            Some(s) => Ret::Fin(rres(&s.finish().await)),
+        },
     };
     (kit, ret)
 }
@@ -390,6 +446,8 @@ pub struct Server {
     pub last_done_search: Option<i64>,
     pub saw_unbind: bool,
     pub garbage_tail: bool,
+    /// markers of single operations that were sent an IntermediateResponse
+    pub intermediate_for: BTreeSet<String>,
 }
 
 fn marker_of(op: &Op) -> String {
@@ -455,6 +513,26 @@ pub fn page_slice(plan: &Plan, size: usize, served: usize) -> (usize, usize, boo
     (lo, hi, more)
 }
 
+/// the referral list of a final result
+pub fn result_referral(marker: &str, plan: &Plan) -> Vec<String> {
+    let u = format!("ldap://ref/{}", marker);
+    if plan.dup_refs {
+        vec![u.clone(), u, "ldap://réf.example/ou=é".to_string()]
+    } else {
+        vec![u]
+    }
+}
+
+/// label of a scripted non-paged item
+pub fn item_label(marker: &str, j: usize, k: ItemKind, plan: &Plan) -> String {
+    match k {
+        ItemKind::R if plan.dup_refs => format!("ldap://{0}#{1},ldap://{0}#{1}", marker, j),
+        ItemKind::R => format!("ldap://{}#{}", marker, j),
+        ItemKind::I if plan.bare_intermediate => String::new(),
+        _ => format!("{}#{}", marker, j),
+    }
+}
+
 pub fn page_ref_label(marker: &str, served: usize) -> String {
     format!("ldap://{}/p{}", marker, served)
 }
@@ -492,6 +570,10 @@ pub struct Client {
     pub sm: StreamModel,
     /// how many bytes the client side had written when the current call started
     pub out_mark: usize,
+    /// the second search started through the stream's own handle: (marker, items handed out, open)
+    pub inner: Option<(String, usize, bool)>,
+    /// the driver was gone when the current call started
+    pub dead_at_start: bool,
 }
 
 #[derive(Clone, Debug, Default)]
@@ -551,7 +633,7 @@ impl World {
             .map(|cs| Client {
                 pos: 0,
                 free_left: cs.free,
-                kit: Some(Kit { ldap: Some(ldap.clone()), stream: None }),
+                kit: Some(Kit { ldap: Some(ldap.clone()), stream: None, inner: None }),
                 task: None,
                 cur: None,
                 log: vec![],
@@ -561,6 +643,8 @@ impl World {
                 last_poll: 0,
                 sm: StreamModel { state: "None", ..Default::default() },
                 out_mark: 0,
+                inner: None,
+                dead_at_start: false,
             })
             .collect();
         let mut server = Server::default();
@@ -619,7 +703,7 @@ impl World {
                     Call::Abandon(AbTarget::Marker(m)) => self.server.reqs.iter().any(|r| r.marker == *m),
                     _ => true,
                 };
-                if ok && c.kit.as_ref().map_or(false, |k| k.ldap.is_some() || matches!(spec.script[c.pos], Call::Next | Call::Finish)) {
+                if ok && c.kit.as_ref().map_or(false, |k| k.ldap.is_some() || matches!(spec.script[c.pos], Call::Next | Call::Finish | Call::NextInner | Call::FinishInner | Call::SingleViaStream { .. } | Call::StartInner { .. })) {
                     out.push(Action::Do(i));
                 }
             } else if c.free_left > 0 && c.has_stream {
@@ -635,7 +719,7 @@ impl World {
             }
         }
         let io = self.io.lock().unwrap();
-        let link_up = !io.eof && !io.read_err && self.fault_done.map_or(true, |f| !matches!(f.0, FaultKind::Eof | FaultKind::Reset | FaultKind::Garbage));
+        let link_up = !io.eof && !io.read_err && self.fault_done.map_or(true, |f| !matches!(f.0, FaultKind::Eof | FaultKind::Reset | FaultKind::Garbage | FaultKind::ShortGarbage));
         if link_up {
             for r in &self.server.reqs {
                 if self.srv_can_answer(r) {
@@ -647,6 +731,7 @@ impl World {
                     BogusKind::UnusedId | BogusKind::Zero => true,
                     BogusKind::DupCompleted => self.server.last_answered_single.is_some(),
                     BogusKind::EntryAfterDone => self.server.last_done_search.is_some(),
+                    BogusKind::IntermediateForPending => self.server.reqs.iter().any(|r| matches!(r.kind, RK::Single(_)) && !r.done && !r.abandoned),
                 };
                 if ok && !out.contains(&Action::Bogus(*b)) {
                     out.push(Action::Bogus(*b));
@@ -767,6 +852,13 @@ impl World {
                         io.deliver(&[0x04, 0x02, 0xde, 0xad]);
                         io.set_eof();
                     }
+                    FaultKind::ShortGarbage => {
+                        if !io.staged.is_empty() {
+                            self.emitted = self.routed.iter().map(|(k, v)| (*k, v.0)).collect();
+                        }
+                        io.staged.clear();
+                        io.deliver(&[0x30, 0x00]);
+                    }
                     FaultKind::WriteErr => {
                         io.wmode = WMode::Err;
                         io.wake_writer();
@@ -818,8 +910,9 @@ impl World {
         }
         self.clients[i].cur = Some((call.clone(), self.now));
         self.clients[i].out_mark = self.io.lock().unwrap().out.len();
+        self.clients[i].dead_at_start = !self.driver_alive();
         let before = self.probe.as_ref().map(|p| p.verif_msgmap());
-        let allocates = !matches!(call, Call::StartOwnPaging { .. }) && matches!(call, Call::Single { .. } | Call::Search { .. } | Call::Abandon(_) | Call::Unbind)
+        let allocates = !matches!(call, Call::StartOwnPaging { .. }) && matches!(call, Call::Single { .. } | Call::Search { .. } | Call::Abandon(_) | Call::Unbind | Call::SingleViaStream { .. } | Call::StartInner { .. })
             || matches!(&call, Call::Start { own_paging, chain, .. } if !(*own_paging && matches!(chain, Chain::Paged(_) | Chain::EntriesPaged(_) | Chain::PagedEntries(_))));
         self.clients[i].task = Some(Task::new(run_call(kit, call.clone(), ab_id)));
         self.poll_client(i);
@@ -968,7 +1061,7 @@ impl World {
         let extra_ctl = |marker: &str| Ctl { oid: EXTRA_CTL_OID.as_bytes().to_vec(), crit: Some(true), val: Some(format!("{}/x", marker).into_bytes()) };
         let mut res = Res::new(plan.rc as i64, &format!("id={}", id), &r.marker);
         if plan.referral {
-            res.referral = Some(vec![format!("ldap://ref/{}", r.marker).into_bytes()]);
+            res.referral = Some(result_referral(&r.marker, &plan).into_iter().map(String::into_bytes).collect());
         }
         match r.kind {
             RK::Single(tag) => {
@@ -992,7 +1085,8 @@ impl World {
                             dn: label.clone().into_bytes(),
                             attrs: vec![(b"cn".to_vec(), vec![b"v".to_vec()])],
                         },
-                        ItemKind::R => Op::SearchRef(vec![label.clone().into_bytes()]),
+                        ItemKind::R => Op::SearchRef(label.split(',').map(|u| u.as_bytes().to_vec()).collect()),
+                        ItemKind::I if plan.bare_intermediate => Op::Intermediate { name: None, val: None },
                         ItemKind::I => Op::Intermediate { name: Some(label.clone().into_bytes()), val: None },
                     };
                     let controls = if plan.item_ctrls {
@@ -1050,6 +1144,11 @@ impl World {
             BogusKind::EntryAfterDone => {
                 let id = self.server.last_done_search.unwrap();
                 Msg { id, op: Op::SearchEntry { dn: b"BOGUS".to_vec(), attrs: vec![] }, controls: None }
+            }
+            BogusKind::IntermediateForPending => {
+                let r = self.server.reqs.iter().find(|r| matches!(r.kind, RK::Single(_)) && !r.done && !r.abandoned).unwrap().clone();
+                self.server.intermediate_for.insert(r.marker.clone());
+                Msg { id: r.id, op: Op::Intermediate { name: Some(b"1.2.3.BOGUS-IR".to_vec()), val: None }, controls: None }
             }
         };
         self.push_frame(&m);
@@ -1189,17 +1288,7 @@ impl World {
                         self.judge_paged_request(&m, &marker, size, &cookie, served);
                     }
                 } else {
-                    req.items = plan
-                        .items
-                        .iter()
-                        .enumerate()
-                        .map(|(j, k)| {
-                            (*k, match k {
-                                ItemKind::R => format!("ldap://{}#{}", marker, j),
-                                _ => format!("{}#{}", marker, j),
-                            })
-                        })
-                        .collect();
+                    req.items = plan.items.iter().enumerate().map(|(j, k)| (*k, item_label(&marker, j, *k, &plan))).collect();
                 }
             }
         }
@@ -1227,8 +1316,17 @@ impl World {
             // in-flight call carrying this marker
             if let Some((call, _)) = &c.cur {
                 match call {
-                    Call::Single { marker: m, .. } | Call::Search { marker: m, .. } | Call::Start { marker: m, .. } if m == marker => return true,
+                    Call::Single { marker: m, .. } | Call::Search { marker: m, .. } | Call::Start { marker: m, .. } | Call::SingleViaStream { marker: m, .. } | Call::StartInner { marker: m }
+                        if m == marker =>
+                    {
+                        return true
+                    }
                     _ => {}
+                }
+            }
+            if let Some((m, _, open)) = &c.inner {
+                if *open && m == marker {
+                    return true;
                 }
             }
             // open stream for this marker whose current wire ID is `id`
@@ -1321,10 +1419,10 @@ impl World {
                     Ret::Err(k, m) => {
                         if k == "Timeout" {
                             self.judge_timeout(i, marker, *timeout, obs);
-                        } else if k != "PANIC" && !faulted && !self.abandoned_marker(marker) {
+                        } else if k != "PANIC" && !faulted && !self.abandoned_marker(marker) && !self.server.intermediate_for.contains(marker) {
                             self.v(&format!("call:unexpected-error:{}", k), format!("client {} {} failed without any fault: {}", i, obs.call, m));
                         }
-                        if k != "PANIC" && k != "Timeout" && o.term && !self.abandoned_marker(marker) && self.response_routed_before(marker, obs.t_end, false) {
+                        if k != "PANIC" && k != "Timeout" && o.term && !self.abandoned_marker(marker) && !self.server.intermediate_for.contains(marker) && self.response_routed_before(marker, obs.t_end, false) {
                             self.v("term:delivered-response-lost", format!("client {} {}: the response had been delivered and routed, yet the call failed with {}", i, obs.call, m));
                         }
                     }
@@ -1337,6 +1435,7 @@ impl World {
                     Ret::SearchRes(items, r) => {
                         let want: Vec<String> =
                             plan.items.iter().enumerate().filter(|(_, k)| **k == ItemKind::E).map(|(j, _)| format!("{}#{}", marker, j)).collect();
+                        // (entry labels do not depend on the reference / intermediate options)
                         let got: Vec<String> = items.iter().map(|x| x.label.clone()).collect();
                         let err_result = r.rc == 88 && r.text == "user cancelled";
                         if !err_result {
@@ -1410,11 +1509,87 @@ impl World {
             },
             Call::Next => self.judge_next(i, obs, faulted),
             Call::Finish => self.judge_finish(i, obs, faulted),
+            Call::SingleViaStream { marker, .. } => {
+                let plan = self.plan(marker);
+                match &obs.ret {
+                    Ret::Res(r) | Ret::Exop(r, _, _) => {
+                        // the operation ran on the stream's handle: that is where its ID is
+                        let mut o2 = obs.clone();
+                        o2.last_id = obs.stream_last_id.unwrap_or(-1);
+                        self.judge_res(i, marker, &plan, r, &o2, false);
+                    }
+                    Ret::Err(k, m) => {
+                        if k != "PANIC" && k != "NoStream" && !faulted {
+                            self.v(&format!("call:unexpected-error:{}", k), format!("client {} {} failed without any fault: {}", i, obs.call, m));
+                        }
+                    }
+                    other => self.v("call:wrong-shape", format!("client {} {} returned {:?}", i, obs.call, other)),
+                }
+            }
+            Call::StartInner { marker } => match &obs.ret {
+                Ret::Started => self.clients[i].inner = Some((marker.clone(), 0, true)),
+                Ret::Err(k, m) => {
+                    if k != "PANIC" && k != "NoStream" && !faulted {
+                        self.v(&format!("call:unexpected-error:{}", k), format!("client {} {} failed without any fault: {}", i, obs.call, m));
+                    }
+                }
+                other => self.v("call:wrong-shape", format!("client {} {} returned {:?}", i, obs.call, other)),
+            },
+            Call::NextInner => {
+                if let Some((marker, pos, open)) = self.clients[i].inner.clone() {
+                    let plan = self.plan(&marker);
+                    let script: Vec<(ItemKind, String)> = plan.items.iter().enumerate().map(|(j, k)| (*k, item_label(&marker, j, *k, &plan))).collect();
+                    match &obs.ret {
+                        Ret::Item(Some(g)) => {
+                            match script.get(pos) {
+                                Some((k, label)) if g.kind == *k && g.label == *label && open => {}
+                                other => self.v("stream:inner-item", format!("client {} inner next() returned {:?} {:?}, the server's next item for {} is {:?}", i, g.kind, g.label, marker, other)),
+                            }
+                            self.clients[i].inner = Some((marker, pos + 1, open));
+                        }
+                        Ret::Item(None) => {
+                            if open && pos < script.len() {
+                                self.v("stream:inner-early-end", format!("client {} inner next() returned Ok(None) but the server still has {:?} for {}", i, script[pos], marker));
+                            }
+                        }
+                        Ret::Err(k, m) => {
+                            if k != "PANIC" && !faulted && !self.abandoned_marker(&marker) {
+                                self.v(
+                                    &format!("stream:inner-error:{}", k),
+                                    format!("client {} next() on the search started through the outer stream's handle failed without any fault: {} ({} of {} items handed out)", i, m, pos, script.len()),
+                                );
+                            }
+                            self.clients[i].inner = Some((marker, pos, false));
+                        }
+                        other => self.v("call:wrong-shape", format!("client {} {} returned {:?}", i, obs.call, other)),
+                    }
+                }
+            }
+            Call::FinishInner => {
+                if let Some((marker, pos, open)) = self.clients[i].inner.clone() {
+                    let plan = self.plan(&marker);
+                    if let Ret::Fin(r) = &obs.ret {
+                        if open && pos >= plan.items.len() && r.rc != 88 {
+                            if r.text != marker {
+                                self.v("stream:inner-finish", format!("client {} finish() of the inner search returned {:?}", i, r));
+                            }
+                        }
+                    }
+                    self.clients[i].inner = Some((marker, pos, false));
+                }
+            }
             Call::Abandon(_) | Call::Unbind | Call::DropHandle => {
                 if let Ret::Err(k, m) = &obs.ret {
                     if k != "PANIC" && !faulted {
                         self.v(&format!("call:unexpected-error:{}", k), format!("client {} {} failed without any fault: {}", i, obs.call, m));
                     }
+                }
+                // an Unbind on a connection that was already gone cannot have succeeded
+                if matches!(call, Call::Unbind) && self.clients[i].dead_at_start && self.scn.oracles.term && matches!(obs.ret, Ret::Unit) {
+                    self.v("term:unbind-ok-on-dead-connection", format!("client {} unbind() returned Ok although the connection was over when it was called", i));
+                }
+                if matches!(call, Call::DropHandle) {
+                    self.clients[i].inner = None;
                 }
                 if matches!(call, Call::DropHandle) {
                     self.clients[i].has_stream = false;
@@ -1454,12 +1629,12 @@ impl World {
             // search(): URIs of reference messages merged into the referral list
             for (j, k) in plan.items.iter().enumerate() {
                 if *k == ItemKind::R {
-                    want_refs.push(format!("ldap://{}#{}", marker, j));
+                    want_refs.extend(item_label(marker, j, *k, plan).split(',').map(|u| u.to_string()));
                 }
             }
         }
         if plan.referral {
-            want_refs.push(format!("ldap://ref/{}", marker));
+            want_refs.extend(result_referral(marker, plan));
         }
         want_refs.extend(extra_refs.iter().cloned());
         let mut got = r.refs.clone();
@@ -1512,17 +1687,7 @@ impl World {
                 }
                 out
             }
-            _ => plan
-                .items
-                .iter()
-                .enumerate()
-                .map(|(j, k)| {
-                    (*k, match k {
-                        ItemKind::R => format!("ldap://{}#{}", sm.marker, j),
-                        _ => format!("{}#{}", sm.marker, j),
-                    })
-                })
-                .collect(),
+            _ => plan.items.iter().enumerate().map(|(j, k)| (*k, item_label(&sm.marker, j, *k, &plan))).collect(),
         }
     }
 
@@ -1551,7 +1716,7 @@ impl World {
                 if entries_only {
                     while pos < script.len() && script[pos].0 != ItemKind::E {
                         if script[pos].0 == ItemKind::R {
-                            refs.push(script[pos].1.clone());
+                            refs.extend(script[pos].1.split(',').map(|u| u.to_string()));
                         }
                         pos += 1;
                     }
@@ -1601,7 +1766,7 @@ impl World {
                 if entries_only && sm.state == "Active" && k != "PANIC" {
                     // the adapter drained everything that had been routed before it failed
                     let routed = self.routed_frames(&sm.marker).min(script.len());
-                    self.clients[i].sm.refs = script[..routed].iter().filter(|x| x.0 == ItemKind::R).map(|x| x.1.clone()).collect();
+                    self.clients[i].sm.refs = script[..routed].iter().filter(|x| x.0 == ItemKind::R).flat_map(|x| x.1.split(',').map(|u| u.to_string()).collect::<Vec<_>>()).collect();
                 }
                 if k != "Timeout" && k != "PANIC" && sm.state == "Active" && self.scn.oracles.term && !self.abandoned_marker(&sm.marker) {
                     let routed = self.routed_frames(&sm.marker);
@@ -1737,7 +1902,7 @@ impl World {
             self.timed_out_unsent.insert(marker.to_string());
         }
         let start = obs.t_start.max(self.clients[i].last_poll);
-        let deadline_min = start + t;
+        let deadline_min = start.saturating_add(t);
         if obs.t_end < deadline_min {
             self.v("timing:early", format!("client {} {} timed out at {} before its deadline {}", i, obs.call, obs.t_end, deadline_min));
         }
@@ -1764,7 +1929,7 @@ impl World {
         let mut found = vec![];
         for (i, c) in self.clients.iter().enumerate() {
             if let (Some(task), Some((call, t0))) = (&c.task, &c.cur) {
-                if let Some(t) = self.cur_timeout(c) {
+                if let Some(t) = self.cur_timeout(c).filter(|t| *t != u64::MAX) {
                     // search()/paged calls re-arm internally: the reference is the last poll
                     let _ = call;
                     let base = c.last_poll.max(*t0);
@@ -1788,6 +1953,7 @@ impl World {
             && io.staged.is_empty()
             && io.write_waker.is_none()
             && self.clients.iter().all(|c| !c.has_stream || c.stream_closed)
+            && self.clients.iter().all(|c| c.inner.as_ref().map_or(true, |x| !x.2))
     }
 
     pub fn check_quiescent(&mut self) {
@@ -1868,7 +2034,7 @@ impl World {
                 let io = self.io.lock().unwrap();
                 (io.write_errors, io.eof || io.read_err)
             };
-            let failure_observable = rd_fault || werrs > 0 || self.server.saw_unbind || self.dropped_all || !self.driver_alive();
+            let failure_observable = rd_fault || self.fault_done.map_or(false, |f| f.0 == FaultKind::ShortGarbage) || werrs > 0 || self.server.saw_unbind || self.dropped_all || !self.driver_alive();
             for (i, call) in pend {
                 if !failure_observable && self.cur_marker(i).map_or(false, |m| self.plan(&m).silent) {
                     continue; // a silent server and a healthy connection: waiting is correct
@@ -1883,7 +2049,7 @@ impl World {
                 let kind = self.clients[i].cur.as_ref().map(|c| call_kind(&c.0)).unwrap_or("?");
                 self.v(&format!("term:hang:{}:{}", kind, why), format!("nothing can happen any more but client {} is still waiting in {}", i, call));
             }
-            let conn_over = self.fault_done.map_or(false, |f| matches!(f.0, FaultKind::Eof | FaultKind::Reset | FaultKind::Garbage))
+            let conn_over = self.fault_done.map_or(false, |f| matches!(f.0, FaultKind::Eof | FaultKind::Reset | FaultKind::Garbage | FaultKind::ShortGarbage))
                 || self.server.saw_unbind
                 || self.dropped_all;
             // (a server that never closes after an unbind is outside the fairness assumption:
@@ -1918,6 +2084,8 @@ impl World {
     fn cur_marker(&self, i: usize) -> Option<String> {
         match &self.clients[i].cur {
             Some((Call::Single { marker, .. }, _)) | Some((Call::Search { marker, .. }, _)) | Some((Call::Start { marker, .. }, _)) => Some(marker.clone()),
+            Some((Call::SingleViaStream { marker, .. }, _)) | Some((Call::StartInner { marker }, _)) => Some(marker.clone()),
+            Some((Call::NextInner, _)) | Some((Call::FinishInner, _)) => self.clients[i].inner.as_ref().map(|x| x.0.clone()),
             Some((Call::Next, _)) | Some((Call::Finish, _)) => Some(self.clients[i].sm.marker.clone()),
             _ => None,
         }
@@ -1941,8 +2109,9 @@ impl World {
                 if c.task.is_some() && self.cur_timeout(c).is_some() { c.last_poll } else { 0 }
             );
             if c.task.is_some() {
-                let _ = write!(s, "om{}|", c.out_mark);
+                let _ = write!(s, "om{}|d{}|", c.out_mark, c.dead_at_start);
             }
+            let _ = write!(s, "in{:?}|", c.inner);
             for o in &c.log {
                 let _ = write!(s, "{:?};", o);
             }
@@ -1985,7 +2154,7 @@ impl World {
         let _ = write!(
             s,
             "S[{:?} {:?} {:?} {:?}]T{} t{} f{} {:?} da{} V{} inj{}",
-            self.server.bogus_left, self.server.last_answered_single, self.server.last_done_search, self.server.pages_served, self.now, self.ticks_left, self.faults_left, self.fault_done, self.dropped_all,
+            (&self.server.bogus_left, &self.server.intermediate_for), self.server.last_answered_single, self.server.last_done_search, self.server.pages_served, self.now, self.ticks_left, self.faults_left, self.fault_done, self.dropped_all,
             self.viol.len(),
             self.injected
         );
@@ -2029,6 +2198,10 @@ pub fn call_kind(c: &Call) -> &'static str {
         Call::Abandon(_) => "abandon",
         Call::Unbind => "unbind",
         Call::DropHandle => "drop",
+        Call::SingleViaStream { .. } => "single-via-stream",
+        Call::StartInner { .. } => "start-inner",
+        Call::NextInner => "next-inner",
+        Call::FinishInner => "finish-inner",
     }
 }
 
